@@ -184,12 +184,12 @@ func genColumns(c *ctx) (string, error) {
 					}
 				}
 				// decoder(column.Read()) / decoder(column.ReadOr(lit))
-				if fid, ok := x.Fun.(*ast.Ident); ok && strings.HasPrefix(fid.Name, "parse") && len(x.Args) >= 1 {
+				if fid, ok := x.Fun.(*ast.Ident); ok && isPackageFunc(p, fid) && len(x.Args) >= 1 {
 					if inner, ok := x.Args[0].(*ast.CallExpr); ok {
 						if sel, ok := inner.Fun.(*ast.SelectorExpr); ok && (sel.Sel.Name == "Read" || sel.Sel.Name == "ReadOr") {
 							if id, ok := sel.X.(*ast.Ident); ok {
 								if col, ok := varCol[id.Name]; ok {
-									decoders = append(decoders, fmt.Sprintf("(%s, \"%s\")", leanBytes(col), fid.Name))
+									decoders = append(decoders, fmt.Sprintf("(%s, \"%s\")", leanBytes(col), canonicalDecoderName(p, fid)))
 								}
 							}
 						}
@@ -272,12 +272,12 @@ func genFileTable(c *ctx) (string, error) {
 					continue
 				}
 				key := k.Key.(*ast.Ident).Name
-				if key == "File" {
+				if strings.EqualFold(key, "file") {
 					if s, ok := constString(p, k.Value); ok {
 						file, found = s, true
 					}
 				}
-				if key == "Optional" {
+				if strings.EqualFold(key, "optional") {
 					if id, ok := k.Value.(*ast.Ident); ok && id.Name == "true" {
 						optional = true
 					}
@@ -293,4 +293,10 @@ func genFileTable(c *ctx) (string, error) {
 		return "", fmt.Errorf("file table not recognised")
 	}
 	return "namespace Gtfs.Gen.FileTable\n\n/-- the table literal in ParseStatic: (file name, optional) in processing order -/\ndef files : List (List UInt8 × Bool) := [" + strings.Join(entries, ",\n  ") + "]\n\nend Gtfs.Gen.FileTable\n", nil
+}
+
+// isPackageFunc: the identifier names a function declared at package level in this package
+func isPackageFunc(p *packages.Package, id *ast.Ident) bool {
+	fn, ok := p.TypesInfo.ObjectOf(id).(*types.Func)
+	return ok && fn.Pkg() == p.Types && fn.Type().(*types.Signature).Recv() == nil
 }
